@@ -83,6 +83,8 @@ def run(path, sources, on_stmt=None):
                         _bind(it.optional_vars, influence(it.context_expr, env), env, sources)
             elif isinstance(st, ast.Expr) and isinstance(st.value, ast.Call):
                 _call(st.value, env)
+        elif ev[0] == "cond" and on_stmt is not None:
+            on_stmt(ev[1], env)                         # the test of a branch / loop is looked at like a statement
         elif ev[0] == "iter" and len(ev) > 2 and ev[2] and isinstance(ev[1], ast.For):
             _bind(ev[1].target, influence(ev[1].iter, env), env, sources)
     return env
